@@ -580,7 +580,7 @@ fn c08_probe_ops(h: &Hist, rng: &mut Rng) -> Vec<Op> {
 }
 
 /// Construction with invalid metadata buffers must return Err(Initialization)
-fn c08_buffers(rep: &mut Report, rng: &mut Rng, place: Place) -> u64 {
+pub fn c08_buffers(rep: &mut Report, rng: &mut Rng, place: Place) -> u64 {
     let cfg = Cfg::by_name(*rng.pick(&["simple", "movable", "zeroslot"]), rng.range(1, 3));
     let frames = frame_counts(rng, 3, true).max(1);
     let classing = cfg.classing();
